@@ -3,4 +3,6 @@ import Bee2V.C09.Drv
 def main : IO Unit := Bee2V.Proto.runLoop fun
   | "chk" :: args => Bee2V.C09.Drv.handleChk args
   | "path" :: args => Bee2V.C15.Drv.handlePath args
+  | "keyclass" :: args => Bee2V.C09.Drv.handleKey args
+  | "ptclass" :: args => Bee2V.C09.Drv.handlePt args
   | _ => "bad-op"
